@@ -186,7 +186,7 @@ def _sample_condition(exp_condition, frametimes, oversampling=16,
     tmax = len(hr_frametimes)
     regressor = np.zeros_like(hr_frametimes).astype(np.float64)
     t_onset = np.minimum(np.searchsorted(hr_frametimes, onsets), tmax - 1)
-    regressor[t_onset] += values
+    np.add.at(regressor, t_onset, values)
     t_offset = np.minimum(np.searchsorted(hr_frametimes, onsets + durations),
                           tmax - 1)
 
@@ -195,7 +195,7 @@ def _sample_condition(exp_condition, frametimes, oversampling=16,
         if to < (tmax - 1) and to == t_onset[i]:
             t_offset[i] += 1
 
-    regressor[t_offset] -= values
+    np.subtract.at(regressor, t_offset, values)
     regressor = np.cumsum(regressor)
 
     return regressor, hr_frametimes
